@@ -21,7 +21,7 @@ RULE = ("history = one cell space (OrthogonalMooreGrid / OrthogonalVonNeumannGri
         "VoronoiGrid; torus flag; capacity None / 1 / 2 / 3, per cell on Voronoi) + up to 8 agents (CellAgent, FixedAgent, "
         "Grid2DMovingAgent) + up to 30 operations: cell assignment (incl. None, the same cell, a full cell), move_to, "
         "move_relative (existing and missing directions), Grid2DMovingAgent.move(name, k) (k from -1 to beyond the border, "
-        "names in mixed case and invalid), remove (also repeated), model.remove_all_agents, agents created mid-history, CellCollection views and random choices on all_cells / empties, direct cell.add_agent / remove_agent calls (model and correspondence only; the oracle stops judging after the first), capacity 0 and fractional capacities (rare), select_random_empty_cell under both strategies and "
+        "names in mixed case and invalid), remove (also repeated), model.remove_all_agents, agents created mid-history, CellCollection views and random choices on all_cells / empties, CellCollection.select(filter, at_most), Cell.connect / disconnect followed by moves along the edited keys, direct cell.add_agent / remove_agent calls (model and correspondence only; the oracle stops judging after the first), capacity 0 and fractional capacities (rare), select_random_empty_cell under both strategies and "
         "placement into the cell it returned, and 'probe' points where the driver issues every kind of call that must be rejected in "
         "the state reached (C18 fault enumeration: full cells, FixedAgent second cell, missing directions, paths leaving the grid); the whole state view is observed after every operation. "
         "non-trivial = at least 3 operations of which one was rejected or one cell held >= 2 agents or a removal happened; "
@@ -241,7 +241,7 @@ def _gen_ops(rng, sp, kinds, n_ops):
             where.pop(a, None)
         elif r < 0.92:
             q = rng.random()
-            if q < 0.18 and len(kinds) < 10:
+            if q < 0.14 and len(kinds) < 10:
                 k = rng.choice(KINDS)
                 kinds.append(k)              # an agent created in the middle of the history
                 ids.append(len(kinds))
@@ -251,8 +251,24 @@ def _gen_ops(rng, sp, kinds, n_ops):
                     g2.append(len(kinds))
                 ops.append(["new", k])
                 continue
-            if q < 0.40:
+            if q < 0.28:
                 ops.append([rng.choice(["coll_rand_cell", "coll_rand_agent", "coll_view"]), rng.choice(["all", "empties"])])
+                continue
+            if q < 0.34:
+                pred = rng.choice([["any"], ["empty"], ["nonempty"], ["atleast", rng.randint(0, 3)], ["idxmod", rng.randint(1, 3), rng.randint(0, 2)],
+                                   ["has", rng.randint(1, len(kinds))]])
+                am = rng.choice([None, None, 0, 1, 2, 3, 100, -1, ["frac", 1, 2], ["frac", 1, 4], ["frac", 3, 4], ["frac", 0, 1], ["frac", 1, 1]])
+                ops.append(["coll_select", rng.choice(["all", "all", "empties"]), pred, am])
+                continue
+            if q < 0.40:
+                # dynamic connections, then (usually) a move along the edited key
+                c1, c2 = rng.randrange(ncells), rng.randrange(ncells)
+                key = _rand_dir(rng, sp, ncells, c1)
+                ops.append(rng.choice([["connect", c1, c2, key], ["connect", c1, c2, key], ["disconnect", c1, c2], ["conn_query", c1]]))
+                if movers and rng.random() < 0.7:
+                    a2 = rng.choice(movers)
+                    ops.append(["set", a2, c1])
+                    ops.append(["move_rel", a2, key])
                 continue
             if q < 0.7:
                 ops.append(["probe"])
@@ -334,6 +350,14 @@ def _corner_cases():
     out.append({"space": {"type": "moore", "dims": [2, 2], "torus": False, "capacity": 1}, "agents": ["cell", "cell", "fixed"], "seed": 12,
                 "ops": [["set", 1, 0], ["set", 2, 1], ["cell_add", 1, 1], ["cell_add", 2, 1], ["cell_add", 2, 1], ["cell_remove", 0, 1], ["set", 1, 3], ["remove", 1],
                         ["cell_remove", 3, 2], ["coll_view", "all"], ["rand_empty", False], ["set", 3, 2], ["remove_all"]]})
+    # round 4: select(filter, at_most) on both collections; connect / disconnect followed by moves along the edited keys
+    out.append({"space": {"type": "vonneumann", "dims": [2, 3], "torus": False, "capacity": 2}, "agents": ["cell", "grid2d", "cell"], "seed": 13,
+                "ops": [["set", 1, 0], ["set", 2, 0], ["set", 3, 4], ["coll_select", "all", ["nonempty"], None], ["coll_select", "all", ["any"], 2],
+                        ["coll_select", "all", ["empty"], ["frac", 1, 2]], ["coll_select", "empties", ["idxmod", 2, 1], 1], ["coll_select", "all", ["atleast", 2], 5],
+                        ["coll_select", "all", ["has", 3], None], ["coll_select", "all", ["any"], -1], ["coll_select", "all", ["any"], ["frac", 1, 1]],
+                        ["coll_select", "all", ["any"], None], ["conn_query", 0], ["move_rel", 1, [0, 1]], ["connect", 1, 5, [0, 1]], ["conn_query", 1],
+                        ["move_rel", 1, [0, 1]], ["disconnect", 0, 1], ["move_rel", 2, [0, 1]], ["move2d", 2, "east", 1], ["connect", 0, 3, [0, 1]],
+                        ["move2d", 2, "east", 2], ["conn_query", 0], ["disconnect", 0, 3], ["conn_query", 0], ["connect", 5, 5, [7, 7]], ["move_rel", 1, [7, 7]]]})
     # networks and Voronoi: capacity, un-placing, empties under the list strategy on a full space
     out.append({"space": {"type": "network", "graph": GRAPHS[1], "capacity": 1}, "agents": ["cell", "cell", "fixed"], "seed": 5,
                 "ops": [["set", 1, 0], ["set", 2, 1], ["rand_empty", False], ["set", 3, 0], ["move_rel", 1, [1]], ["set", 1, None], ["place_rand", 3, False],
@@ -430,8 +454,8 @@ def _key_of(sp, d):
 def _dirs_used(case):
     keys = []
     for op in case["ops"]:
-        if op[0] == "move_rel":
-            k = [int(x) for x in op[2]]
+        if op[0] in ("move_rel", "connect") and len(op) > (2 if op[0] == "move_rel" else 3):
+            k = [int(x) for x in (op[2] if op[0] == "move_rel" else op[3])]
             if k not in keys:
                 keys.append(k)
     if any(op[0] == "move2d" for op in case["ops"]):
@@ -759,10 +783,73 @@ def run_impl(case):
             poisoned[0] = True
             prev = cur
             return
+        if kind in ("connect", "disconnect", "conn_query"):
+            # Cell.connect / Cell.disconnect edit the live connections that move_relative / move read
+            keys = [list(k) for k, _ in static["conn"]]
+            c = op[1]
+            o2 = op[2] if kind != "conn_query" else 0
+            if not (isinstance(c, int) and 0 <= c < ncells and isinstance(o2, int) and 0 <= o2 < ncells):
+                obs.append([-2] + prev)
+                ops_out.append(["noop"])
+                return
+            try:
+                if kind == "connect":
+                    cells[c].connect(cells[o2], _key_of(sp, [int(v) for v in op[3]]))
+                    obs.append([0] + prev)
+                    ops_out.append(["connect", c, o2, [int(v) for v in op[3]]])
+                elif kind == "disconnect":
+                    cells[c].disconnect(cells[o2])
+                    obs.append([0] + prev)
+                    ops_out.append(["disconnect", c, o2, keys])
+                else:
+                    got = [cells[c].connections.get(_key_of(sp, k)) for k in keys]
+                    obs.append([0] + [cidx.get(id(t), -9) if t is not None else -1 for t in got] + prev)
+                    ops_out.append(["conn_query", c, keys])
+            except Exception as e:  # noqa: BLE001
+                obs.append([-1, 99] + prev)
+                ops_out.append(["noop"])
+                fail("C06/connect/unexpected-exception", i, f"{op} raised {type(e).__name__}: {e}")
+            return
         w = op[1]
         if w not in ("all", "empties"):
             obs.append([-2] + prev)
             ops_out.append(["noop"])
+            return
+        if kind == "coll_select":
+            pred, am = op[2], op[3]
+            pk = pred[0]
+            fns = {"any": None, "empty": lambda cl: cl.is_empty, "nonempty": lambda cl: not cl.is_empty,
+                   "atleast": lambda cl: len(cl.agents) >= pred[1], "idxmod": lambda cl: cidx[id(cl)] % pred[1] == pred[2],
+                   "has": lambda cl: 1 <= pred[1] <= len(agents) and agents[pred[1] - 1] in cl.agents}
+            if pk not in fns or (pk == "idxmod" and pred[1] <= 0):
+                obs.append([-2] + prev)
+                ops_out.append(["noop"])
+                return
+            coll = space.all_cells if w == "all" else space.empties
+            amv = float("inf") if am is None else (am[1] / am[2] if isinstance(am, list) else am)
+            try:
+                res = coll.select(fns[pk], at_most=amv)
+                cl = [cidx.get(id(c), -9) for c in res.cells]
+                al = ids_of(res.agents)
+            except Exception as e:  # noqa: BLE001
+                obs.append([-1, 99] + prev)
+                ops_out.append(["noop"])
+                fail(f"C06/collection-{w}/select-unexpected-exception", i, f"{op} raised {type(e).__name__}: {e}")
+                return
+            obs.append([0, len(cl)] + cl + [-9] + al + prev)
+            ops_out.append(list(op))
+            # the statement (as for AgentSet.select, C03): the first `limit` members, in order, that pass the filter
+            members = list(range(ncells)) if w == "all" else [j for j in range(ncells) if not occupants(j)]
+            sh = {"any": lambda j: True, "empty": lambda j: not occupants(j), "nonempty": lambda j: bool(occupants(j)),
+                  "atleast": lambda j: len(occupants(j)) >= pred[1], "idxmod": lambda j: j % pred[1] == pred[2],
+                  "has": lambda j: pred[1] in occupants(j)}[pk]
+            match = [j for j in members if sh(j)]
+            lim = None if am is None else (int(len(members) * (am[1] / am[2])) if isinstance(am, list) else am)
+            exp = match if lim is None else match[:max(lim, 0)]
+            if cl != exp:
+                fail(f"C06/collection-{w}/select", i, f"{op}: selected cells {cl}; the first {lim} of {members} passing the filter are {exp}")
+            elif sorted(al) != sorted(b for j in exp for b in occupants(j)):
+                fail(f"C06/collection-{w}/select-agents", i, f"{op}: agents of the selection {al}")
             return
         free = [j for j in range(ncells) if not occupants(j)]
         placed = sorted(b for b in loc if loc[b] is not None)
@@ -821,7 +908,8 @@ def run_impl(case):
         i += 1
         kind = op[0]
         op_m = list(op)
-        if kind in ("new", "cell_add", "cell_remove", "coll_rand_cell", "coll_rand_agent", "coll_view"):
+        if kind in ("new", "cell_add", "cell_remove", "coll_rand_cell", "coll_rand_agent", "coll_view", "coll_select", "connect",
+                    "disconnect", "conn_query"):
             extra_op(i, op)
             continue
         a = op[1] if kind not in ("rand_empty", "remove_all") else None
@@ -927,6 +1015,10 @@ def run_impl(case):
         except Exception as e:  # noqa: BLE001
             raised = e
         rj = cidx.get(id(ret), -9) if ret is not None else None
+        if kind in ("rand_empty", "place_rand") and raised is None and ret is None:
+            rj = -9
+            fail("C06/select_random_empty_cell/returned-no-cell", i, f"{op}: select_random_empty_cell returned None")
+            poisoned[0] = True
         if kind in ("rand_empty", "place_rand"):
             op_m = op_m + [rj]
             have_empty = any(not occupants(j) for j in range(ncells))
@@ -1061,7 +1153,21 @@ def coq_case(case):
             ops.append(f"CollRandomAgent {coll[op[1]]} {_opt(op[2] if len(op) > 2 else None)}")
         elif k == "coll_view" and op[1] in coll:
             ops.append(f"CollView {coll[op[1]]}")
-        elif k in ("coll_rand_cell", "coll_rand_agent", "coll_view"):
+        elif k == "coll_select" and op[1] in coll:
+            pr = op[2]
+            pt = {"any": "PAny", "empty": "PEmpty", "nonempty": "PNonEmpty"}.get(pr[0]) or (
+                f"(PAtLeast {L.z(pr[1])})" if pr[0] == "atleast" else f"(PIdxMod {L.z(pr[1])} {L.z(pr[2])})" if pr[0] == "idxmod"
+                else f"(PHas {L.z(pr[1])})")
+            am = op[3]
+            at = "AInf" if am is None else (f"(AFrac {L.z(am[1])} {L.z(am[2])})" if isinstance(am, list) else f"(AInt {L.z(am)})")
+            ops.append(f"CollSelect {coll[op[1]]} {pt} {at}")
+        elif k == "connect":
+            ops.append(f"Connect {L.z(op[1])} {L.z(op[2])} {L.zlist(op[3])}")
+        elif k == "disconnect":
+            ops.append(f"Disconnect {L.z(op[1])} {L.z(op[2])} {L.lst([L.zlist(q) for q in op[3]])}")
+        elif k == "conn_query":
+            ops.append(f"ConnQuery {L.z(op[1])} {L.lst([L.zlist(q) for q in op[2]])}")
+        elif k in ("coll_rand_cell", "coll_rand_agent", "coll_view", "coll_select"):
             ops.append("Api (Remove 0)")
         else:
             ops.append(f"Api ({_api(op)})")
